@@ -1,6 +1,7 @@
 package props
 
 import (
+	"crypto"
 	"crypto/ecdsa"
 	"fmt"
 	"math/big"
@@ -48,11 +49,14 @@ func genC06(r *sim.Rand, tier string) *sim.Program {
 	nsig := 0
 	for i := 0; i < nops; i++ {
 		if kk >= 3 {
-			p.Add("sign", r.Intn(5), r.Intn(1<<30)).WithB(r.Bytes(uidLen()), r.Bytes(r.PickInt(0, 1, 32, 33, 100)))
+			p.Add("sign", r.Intn(8), r.Intn(1<<30)).WithB(r.Bytes(uidLen()), r.Bytes(r.PickInt(0, 1, 32, 33, 100)))
 			continue
 		}
 		if nsig == 0 || r.Chance(1, 4) {
-			switch r.Intn(8) {
+			switch r.Intn(9) {
+			case 5:
+				// constructive: a public key, digest and pair chosen backwards from a curve point whose abscissa lies in [n, p)
+				p.Add("x1over", r.Intn(1<<30), r.Intn(1<<16))
 			case 0:
 				// constructive: the digest is chosen after the nonce so that r is small (top 32..64 bits zero)
 				p.Add("smallr", r.Intn(1<<30), r.PickInt(4, 4, 5, 8, 16, 28)).WithB(r.Bytes(28))
@@ -69,10 +73,10 @@ func genC06(r *sim.Rand, tier string) *sim.Program {
 				if r.Chance(1, 2) {
 					p.Add("rekey", r.Intn(1<<30), r.Intn(2))
 				} else {
-					p.Add("sign", r.Intn(5), r.Intn(1<<30)).WithB(r.Bytes(uidLen()), r.Bytes(r.PickInt(0, 1, 32, 33, 100, 300)))
+					p.Add("sign", r.Intn(8), r.Intn(1<<30)).WithB(r.Bytes(uidLen()), r.Bytes(r.PickInt(0, 1, 32, 33, 100, 300)))
 				}
 			default:
-				p.Add("sign", r.Intn(5), r.Intn(1<<30)).WithB(r.Bytes(uidLen()), r.Bytes(r.PickInt(0, 1, 32, 33, 100, 300)))
+				p.Add("sign", r.Intn(8), r.Intn(1<<30)).WithB(r.Bytes(uidLen()), r.Bytes(r.PickInt(0, 1, 32, 33, 100, 300)))
 			}
 			nsig++
 			continue
@@ -225,7 +229,7 @@ func execC06(t *testing.T, p *sim.Program, c *sim.Ctx) {
 		}
 		c.OpsDone++
 		if op.K == "sign" {
-			entry := ((op.Int(0) % 5) + 5) % 5
+			entry := ((op.Int(0) % 8) + 8) % 8
 			uid, msg := op.Bytes(0), op.Bytes(1)
 			if len(uid) > 8191 {
 				uid = uid[:8191]
@@ -285,6 +289,13 @@ func execC06(t *testing.T, p *sim.Program, c *sim.Ctx) {
 					}
 					sig = sm2m.MarshalDERSig(rr, ss)
 				}
+			case 5:
+				// the application hashes on its own and signs the digest as it is; the option object may carry an identifier
+				sig, err = priv.Sign(rd, e[:], sm2.NewSM2SignerOption(false, uid))
+			case 6:
+				sig, err = sm2.SignASN1(rd, priv, e[:], sm2.NewSM2SignerOption(false, uid))
+			case 7:
+				sig, err = priv.Sign(rd, e[:], crypto.SHA256) // any crypto.Hash as options: the digest is signed as it is
 			default:
 				sig, err = priv.SignWithSM2(rd, uid, msg)
 			}
@@ -385,6 +396,51 @@ func execC06(t *testing.T, p *sim.Program, c *sim.Ctx) {
 			rawDigest = e.FillBytes(make([]byte, 32))
 			deliver(i, "t-zero-forgery", &priv.PublicKey, pub, nil, nil, sm2m.MarshalDERSig(rv, sv))
 			deliver(i, "t-zero-forgery-other-key", &other.PublicKey, opub, nil, nil, sm2m.MarshalDERSig(rv, sv))
+			rawDigest = nil
+			continue
+		}
+		if op.K == "x1over" {
+			// The abscissa x1 of [s]G + [t]P is a field element; B6 reduces it mod n. About 2^-128 of all points have
+			// x1 in [n, p), which no honest signature reaches - but a triple can be built backwards: take such a point R,
+			// choose s and t, let P = t^-1 (R - [s]G) be the public key, r = t - s and e = r - x1 mod n.
+			n := sm2m.N
+			x := new(big.Int).Add(n, big.NewInt(int64(op.Int(1)&0xffff)))
+			var R sm2m.Point
+			for tries := 0; tries < 64; tries++ {
+				rhs := new(big.Int).Exp(x, big.NewInt(3), sm2m.P)
+				rhs.Add(rhs, new(big.Int).Mul(sm2m.A, x))
+				rhs.Add(rhs, sm2m.B)
+				rhs.Mod(rhs, sm2m.P)
+				if y := new(big.Int).ModSqrt(rhs, sm2m.P); y != nil && x.Cmp(sm2m.P) < 0 {
+					R = sm2m.Point{X: new(big.Int).Set(x), Y: y}
+					break
+				}
+				x.Add(x, big.NewInt(1))
+			}
+			if R.X == nil || !sm2m.OnCurve(R) {
+				continue
+			}
+			sb := derive(append([]byte(fmt.Sprint(op.Int(0))), p.CB("d")...), "x1over", 64)
+			sv := new(big.Int).Mod(new(big.Int).SetBytes(sb[:32]), n)
+			tv := new(big.Int).Mod(new(big.Int).SetBytes(sb[32:]), n)
+			rv := new(big.Int).Mod(new(big.Int).Sub(tv, sv), n)
+			if sv.Sign() == 0 || tv.Sign() == 0 || rv.Sign() == 0 {
+				continue
+			}
+			Q := sm2m.ScalarMult(new(big.Int).ModInverse(tv, n), sm2m.Add(R, sm2m.Neg(sm2m.ScalarBaseMult(sv))))
+			if Q.Inf || !sm2m.OnCurve(Q) {
+				continue
+			}
+			ev := new(big.Int).Mod(new(big.Int).Sub(rv, new(big.Int).Mod(R.X, n)), n)
+			key, kerr := sm2.NewPublicKey(sm2m.MarshalUncompressed(Q))
+			if kerr != nil {
+				c.Fail("setup", i, op.K, "NewPublicKey refused a valid point: %v", kerr)
+				return
+			}
+			c.Abs("x1over")
+			c.Hit("probe:abscissa-above-n-triple")
+			rawDigest = ev.FillBytes(make([]byte, 32))
+			deliver(i, "abscissa-above-n", key, Q, nil, nil, sm2m.MarshalDERSig(rv, sv))
 			rawDigest = nil
 			continue
 		}
